@@ -143,3 +143,9 @@ package ws
 //@ func (*wsPipe).GetOption
 //@   ensures has(w.options, name) ==> isnil(result1) && result0 == w.options[name]
 //@   ensures !has(w.options, name) ==> isnil(result0) && result1 == mangos.ErrBadOption
+
+// ---- round 13 (C10 "after all sockets are closed no goroutine, ... connection ... remains"): a
+// connection is parked for Accept only while the listener is open; one that arrives after Close is
+// closed on the spot ----
+//@ func (*listener).handler
+//@   before call:append#1 assert !l.closed && held(l.lock)
